@@ -317,3 +317,11 @@ Definition first_with (t : nat) (es : list event) : option (list val) :=
   match filter (has_tag t) es with e :: _ => Some (snd e) | [] => None end.
 
 Definition count_tag (t : nat) (es : list event) : nat := length (filter (has_tag t) es).
+
+(* which run emitted each run event, in trace order (to exhibit interleavings) *)
+Fixpoint run_ids (t : list tev) : list nat :=
+  match t with
+  | [] => []
+  | TRun i _ :: t' => i :: run_ids t'
+  | _ :: t' => run_ids t'
+  end.
